@@ -82,7 +82,7 @@ SAFE_BUILTINS: dict[str, Callable] = {
     "reversed": lambda x: list(reversed(x)), "abs": abs, "int": int, "set": set, "list": list, "tuple": tuple, "bool": bool, "str": str,
     "enumerate": lambda x, start=0: list(enumerate(x, start)), "zip": lambda *a: list(zip(*a)), "sum": sum,
 }
-STR_METHODS = {"lower", "upper", "startswith", "endswith", "casefold", "isalpha", "swapcase"}
+STR_METHODS = {"lower", "upper", "startswith", "endswith", "casefold", "isalpha", "swapcase", "isascii", "isdigit", "isalnum", "isupper", "islower", "strip", "lstrip", "rstrip", "split", "replace", "find", "rfind", "count", "index"}
 LIST_METHODS = {"append", "extend", "pop", "sort", "clear", "insert", "index", "copy"}
 SET_METHODS = {"add", "update", "discard", "copy"}
 
@@ -254,6 +254,15 @@ class Ev:
             return "".join(out)
         raise self.bad(n)
 
+    def args_of(self, n: ast.Call) -> list:
+        out: list = []
+        for a in n.args:
+            if isinstance(a, ast.Starred):
+                out.extend(self.iterate(self.ev(a.value)))
+            else:
+                out.append(self.ev(a))
+        return out
+
     def comp(self, n: ast.GeneratorExp | ast.ListComp | ast.SetComp) -> Any:
         if len(n.generators) != 1:
             raise self.bad(n, "nested comprehension")
@@ -284,10 +293,16 @@ class Ev:
                 if all(x in prim for x in names):
                     return isinstance(obj, tuple(prim[x] for x in names))
                 return False
+            if f.id == "super" and not n.args:
+                owner = self.env.get("__owner__")
+                me = self.env.get("__self__")
+                if owner is None or me is None:
+                    raise self.bad(n, "super() outside a model method")
+                return _Super(me, owner)
             if f.id in self.env and callable(self.env[f.id]):
-                return self.env[f.id](*[self.ev(a) for a in n.args], **{k.arg: self.ev(k.value) for k in n.keywords if k.arg})
+                return self.env[f.id](*self.args_of(n), **{k.arg: self.ev(k.value) for k in n.keywords if k.arg})
             if f.id in SAFE_BUILTINS:
-                args = [self.ev(a) for a in n.args]
+                args = self.args_of(n)
                 if f.id == "len" and len(args) == 1 and isinstance(args[0], Obj):
                     if "_len" in args[0].__dict__:
                         return args[0].__dict__["_len"]
@@ -330,8 +345,17 @@ class Ev:
             raise self.bad(n, "call of an unknown function")
         if isinstance(f, ast.Attribute):
             recv = self.ev(f.value)
-            args = [self.ev(a) for a in n.args]
+            args = self.args_of(n)
             kwargs = {k.arg: self.ev(k.value) for k in n.keywords if k.arg}
+            if isinstance(recv, _Super):
+                m = self.methods.get_after(recv.owner, recv.obj, f.attr) if hasattr(self.methods, "get_after") else None
+                if m is None:
+                    if f.attr == "__init__":
+                        return None  # object.__init__
+                    raise self.bad(n, f"super().{f.attr} not found")
+                return m(recv.obj, *args, **kwargs)
+            if isinstance(recv, _Bound):
+                raise self.bad(n, "attribute of a bound method")
             if isinstance(recv, Obj):
                 if f.attr in recv.__dict__ and callable(recv.__dict__[f.attr]):
                     return recv.__dict__[f.attr](*args, **kwargs)
@@ -466,8 +490,96 @@ class Ev:
                 raise _ModelRaise(ast.unparse(s.exc)[:40] if s.exc else "raise")
             elif isinstance(s, ast.FunctionDef):
                 self.env[s.name] = self.closure(s)
+            elif isinstance(s, ast.Match):
+                subject = self.ev(s.subject)
+                for case in s.cases:
+                    binds: dict[str, Any] = {}
+                    if self.match(case.pattern, subject, binds):
+                        saved = {k: self.env.get(k, _MISSING) for k in binds}
+                        self.env.update(binds)
+                        if case.guard is None or self.ev(case.guard):
+                            self.run(case.body)
+                            break
+                        for k, v in saved.items():
+                            if v is _MISSING:
+                                self.env.pop(k, None)
+                            else:
+                                self.env[k] = v
             else:
                 raise self.bad(s)
+
+    def match(self, p: ast.pattern, subject: Any, binds: dict) -> bool:  # noqa: PLR0911, PLR0912
+        if isinstance(p, ast.MatchValue):
+            return self.ev(p.value) == subject
+        if isinstance(p, ast.MatchSingleton):
+            return subject is p.value
+        if isinstance(p, ast.MatchAs):
+            if p.pattern is not None and not self.match(p.pattern, subject, binds):
+                return False
+            if p.name is not None:
+                binds[p.name] = subject
+            return True
+        if isinstance(p, ast.MatchOr):
+            for alt in p.patterns:
+                b2: dict = {}
+                if self.match(alt, subject, b2):
+                    binds.update(b2)
+                    return True
+            return False
+        if isinstance(p, ast.MatchSequence):
+            if not isinstance(subject, (list, tuple)):
+                return False
+            star = [i for i, q in enumerate(p.patterns) if isinstance(q, ast.MatchStar)]
+            if not star:
+                if len(subject) != len(p.patterns):
+                    return False
+                return all(self.match(q, v, binds) for q, v in zip(p.patterns, subject))
+            i = star[0]
+            before, after = p.patterns[:i], p.patterns[i + 1:]
+            if len(subject) < len(before) + len(after):
+                return False
+            if not all(self.match(q, v, binds) for q, v in zip(before, subject)):
+                return False
+            if after and not all(self.match(q, v, binds) for q, v in zip(after, subject[len(subject) - len(after):])):
+                return False
+            name = p.patterns[i].name  # type: ignore[attr-defined]
+            if name:
+                binds[name] = list(subject[len(before): len(subject) - len(after)])
+            return True
+        if isinstance(p, ast.MatchClass):
+            cname = ast.unparse(p.cls).split(".")[-1]
+            prim = {"str": str, "int": int, "list": list, "tuple": tuple, "dict": dict, "bool": bool}
+            if cname in prim:
+                if not isinstance(subject, prim[cname]) or p.kwd_attrs:
+                    return False
+                return all(self.match(q, subject, binds) for q in p.patterns[:1]) and len(p.patterns) <= 1
+            if not isinstance(subject, Obj) or cname not in subject.kinds:
+                return False
+            if p.patterns:
+                margs = subject.__dict__.get("_fields") or (self.methods.match_args(cname) if hasattr(self.methods, "match_args") else None)
+                if margs is None or len(p.patterns) > len(margs):
+                    raise self.bad(p, f"positional class pattern without __match_args__ for {cname}")
+                for q, attr in zip(p.patterns, margs):
+                    if attr not in subject.__dict__:
+                        return False
+                    if not self.match(q, subject.__dict__[attr], binds):
+                        return False
+            for attr, q in zip(p.kwd_attrs, p.kwd_patterns):
+                if attr in subject.__dict__:
+                    v = subject.__dict__[attr]
+                else:
+                    prop = None
+                    for k in subject.kinds:
+                        prop = self.methods.get((k, "@" + attr))
+                        if prop is not None:
+                            break
+                    if prop is None:
+                        return False
+                    v = prop(subject)
+                if not self.match(q, v, binds):
+                    return False
+            return True
+        raise self.bad(p, "pattern")
 
     def closure(self, fn: ast.FunctionDef, base_env: dict | None = None) -> Callable:
         params = [a.arg for a in fn.args.args]
@@ -476,10 +588,14 @@ class Ev:
         is_gen = any(isinstance(x, (ast.Yield, ast.YieldFrom)) for x in _own_nodes(fn))
         outer = self.env if base_env is None else base_env
 
+        vararg = fn.args.vararg.arg if fn.args.vararg else None
+
         def call(*args: Any, **kwargs: Any) -> Any:
-            if len(args) > len(params):
+            if len(args) > len(params) and vararg is None:
                 raise Unsupported(f"{self.where}: arity mismatch calling {fn.name}")
             local = dict(zip(params, args))
+            if vararg is not None:
+                local[vararg] = tuple(args[len(params):])
             for k, v in kwargs.items():
                 if k not in params and k not in kwonly:
                     raise Unsupported(f"{self.where}: unknown keyword {k} calling {fn.name}")
@@ -515,6 +631,11 @@ class Ev:
         except _Return as r:
             return r.value
         return None
+
+
+class _Super:
+    def __init__(self, obj: "Obj", owner: str):
+        self.obj, self.owner = obj, owner
 
 
 class _Bound:
